@@ -171,13 +171,40 @@ func byteOffset(t []rune, n int) int {
 
 // scanFolder builds the folder for a text prefix. Values in `taint` are not
 // pinned; every value that does get pinned is recorded in `pinned`.
-func (c *Ctx) scanFolder(text string, taint map[ssa.Instruction]bool, pinned map[ssa.Instruction]bool) *Folder {
+func (c *Ctx) scanFolder(text string, taint map[ssa.Instruction]bool, pinned map[ssa.Instruction]bool, clean map[*ssa.Function]bool) *Folder {
 	scan := c.scanFn()
 	t := []rune(text)
 	const bigEnd = 1 << 20
 	var inner func(v ssa.Value) (constant.Value, bool)
 	fo := &Folder{P: c.P, MaxDepth: 3,
 		Opaque: func(f *ssa.Function) bool { return peekKind(f) != "" }}
+	// look-ahead helpers whose distance / character are parameters of an arm helper: constants only in this fold
+	fo.CallHook = func(call *ssa.Call, args []LV) (LV, bool) {
+		cal := calleeOf(call)
+		kind := peekKind(cal)
+		if kind != "equal" || len(args) != 3 {
+			return LV{}, false
+		}
+		in := ssa.Instruction(call)
+		if in.Parent() == scan {
+			return LV{}, false // handled by the pins (with their taint bookkeeping)
+		}
+		if !clean[in.Parent()] || c.posTaint(in.Parent())[in] {
+			return LV{}, false
+		}
+		if args[1].K != lConst || args[2].K != lConst {
+			return LV{}, false
+		}
+		n, _ := constant.Int64Val(args[1].C)
+		ch, _ := constant.Int64Val(args[2].C)
+		if n < 0 {
+			return LV{}, false
+		}
+		if int(n) >= len(t) || t[n] != rune(ch) {
+			return intLV(-1), true
+		}
+		return intLV(int64(byteOffset(t, int(n)+1))), true
+	}
 	fo.Input = func(v ssa.Value) (constant.Value, bool) {
 		cv, ok := inner(v)
 		if ok {
@@ -187,8 +214,15 @@ func (c *Ctx) scanFolder(text string, taint map[ssa.Instruction]bool, pinned map
 	}
 	inner = func(v ssa.Value) (constant.Value, bool) {
 		in, _ := v.(ssa.Instruction)
-		if in == nil || in.Parent() != scan {
+		if in == nil {
 			return nil, false
+		}
+		if in.Parent() != scan {
+			// a helper of one arm (`return s.scanOneOrTwo(size, ...)`), entered before the position was written:
+			// the input is the same there, up to the helper's own first write of the position
+			if !clean[in.Parent()] || c.posTaint(in.Parent())[in] {
+				return nil, false
+			}
 		}
 		switch x := v.(type) {
 		case *ssa.Extract:
@@ -327,17 +361,43 @@ func (c *Ctx) ScanOn(text string) *ScanOutcome {
 	}
 	scan := c.scanFn()
 	unpinned := map[ssa.Instruction]bool{}
+	// helpers of single arms: scanner methods (not look-ahead helpers, not diagnostics) called from Scan
+	cands := map[*ssa.Function]bool{}
+	instrs(scan, func(b *ssa.BasicBlock, i int, in ssa.Instruction) {
+		if call, ok := in.(*ssa.Call); ok {
+			if g := calleeOf(call); g != nil && c.inModule(g) && g != scan && typeName(recvType(g)) == "Scanner" && peekKind(g) == "" && !c.scannerDiagFns()[g] && len(g.Blocks) > 0 {
+				cands[g] = true
+			}
+		}
+	})
+	dirty := map[*ssa.Function]bool{}
 	var res *FoldResult
+	var fo *Folder
 	for iter := 0; iter < 20; iter++ {
 		pinned := map[ssa.Instruction]bool{}
-		fo := c.scanFolder(text, unpinned, pinned)
+		clean := map[*ssa.Function]bool{}
+		for g := range cands {
+			if !dirty[g] {
+				clean[g] = true
+			}
+		}
+		fo = c.scanFolder(text, unpinned, pinned, clean)
 		res = fo.Fold(scan, []LV{bottom})
 		taint := c.posTaintIn(res)
 		more := false
 		for in := range pinned {
-			if taint[in] && !unpinned[in] {
+			if in.Parent() == scan && taint[in] && !unpinned[in] {
 				unpinned[in] = true
 				more = true
+			}
+		}
+		// a helper called after the position was written does not see the pinned input
+		for _, call := range res.ReachableCalls() {
+			if cc, ok := call.(*ssa.Call); ok {
+				if g := calleeOf(cc); g != nil && clean[g] && taint[cc] {
+					dirty[g] = true
+					more = true
+				}
 			}
 		}
 		if !more {
@@ -346,7 +406,34 @@ func (c *Ctx) ScanOn(text string) *ScanOutcome {
 	}
 	out := &ScanOutcome{Fold: res}
 	scanOnCache[c][text] = out
+	type unit struct {
+		res *FoldResult
+		ret *ssa.Return
+	}
+	var units []unit
 	for _, ret := range res.Returns {
+		// `return s.armHelper(...)`: the helper's returns are the outcome
+		if len(ret.Results) == 1 {
+			if call, ok := ret.Results[0].(*ssa.Call); ok {
+				if g := calleeOf(call); g != nil && cands[g] && !dirty[g] {
+					args := make([]LV, len(call.Call.Args))
+					for i, a := range call.Call.Args {
+						args[i] = fo.operand(res, a)
+					}
+					sub := fo.Fold(g, args)
+					if len(sub.Returns) > 0 {
+						for _, r2 := range sub.Returns {
+							units = append(units, unit{sub, r2})
+						}
+						continue
+					}
+				}
+			}
+		}
+		units = append(units, unit{res, ret})
+	}
+	for _, u := range units {
+		res, ret := u.res, u.ret
 		sr := ScanReturn{Ret: ret, Token: LV{K: lTop}, Adv: LV{K: lTop}}
 		if len(ret.Results) == 1 {
 			sr.RetVal = res.Val(ret.Results[0])
